@@ -15,6 +15,7 @@ import (
 	"encoding/binary"
 	"fmt"
 	"io"
+	"math/rand"
 	"net"
 	"sort"
 	"strings"
@@ -228,6 +229,14 @@ type vSessPeer struct {
 	port int
 	asn  uint32 // the ASN the session expects
 	hold uint16
+	// what the peer announces differs from connection to connection (the same router coming back
+	// with another software version / configuration): capability 65 (4-octet ASNs), the
+	// multiprotocol capabilities, the hold time; and it may pipeline its first messages
+	vary   bool
+	holds  []uint16
+	rng    *rand.Rand       // guarded by mu
+	myASN  uint32           // the session's ASN (logged with every UPDATE record)
+	opened map[int]vSessOpn // what was announced on connection k
 
 	mu        sync.Mutex
 	wrong     int // present a wrong ASN on the next `wrong` connections
@@ -240,11 +249,29 @@ type vSessPeer struct {
 	done      chan struct{}
 }
 
+// vSessOpn: the peer's own OPEN of one connection.
+type vSessOpn struct {
+	cap65, mp4, mp6, pipe bool
+	hold                  uint16
+}
+
+func (p *vSessPeer) planOpen() vSessOpn {
+	if !p.vary {
+		return vSessOpn{cap65: true, mp4: true, hold: p.hold}
+	}
+	return vSessOpn{cap65: p.rng.Intn(100) < 55, mp4: p.rng.Intn(100) < 80, mp6: p.rng.Intn(100) < 30,
+		pipe: p.rng.Intn(100) < 30, hold: p.holds[p.rng.Intn(len(p.holds))]}
+}
+
 func vSessNewPeer(l *vSessLog, u *vSessUniverse, asn uint32, hold uint16) *vSessPeer {
 	ln, err := net.Listen("tcp4", "127.0.0.1:0")
 	kit.Must(err)
 	p := &vSessPeer{log: l, u: u, ln: ln, port: ln.Addr().(*net.TCPAddr).Port, asn: asn, hold: hold,
-		conns: map[int]net.Conn{}, dropAfter: map[int]int{}, done: make(chan struct{})}
+		conns: map[int]net.Conn{}, dropAfter: map[int]int{}, done: make(chan struct{}), opened: map[int]vSessOpn{}}
+	return p
+}
+
+func (p *vSessPeer) start() *vSessPeer {
 	go p.acceptLoop()
 	return p
 }
@@ -393,16 +420,43 @@ func vSessReadMsg(c net.Conn) (typ byte, body []byte, err error) {
 	return hdr[18], body, nil
 }
 
-func vSessOpenMsg(asn uint32, hold uint16) []byte {
+func vSessOpenMsg(asn uint32, o vSessOpn) []byte {
 	asn16 := uint16(asn)
 	if asn > 65535 {
 		asn16 = 23456
 	}
-	caps := []byte{1, 4, 0, 1, 0, 1, 65, 4, byte(asn >> 24), byte(asn >> 16), byte(asn >> 8), byte(asn)}
-	body := []byte{4, byte(asn16 >> 8), byte(asn16), byte(hold >> 8), byte(hold), 10, 99, 99, 99,
-		byte(len(caps) + 2), 2, byte(len(caps))}
-	body = append(body, caps...)
+	caps := []byte{}
+	if o.mp4 {
+		caps = append(caps, 1, 4, 0, 1, 0, 1)
+	}
+	if o.mp6 {
+		caps = append(caps, 1, 4, 0, 2, 0, 1)
+	}
+	if o.cap65 {
+		caps = append(caps, 65, 4, byte(asn>>24), byte(asn>>16), byte(asn>>8), byte(asn))
+	}
+	body := []byte{4, byte(asn16 >> 8), byte(asn16), byte(o.hold >> 8), byte(o.hold), 10, 99, 99, 99}
+	if len(caps) > 0 {
+		body = append(body, byte(len(caps)+2), 2, byte(len(caps)))
+		body = append(body, caps...)
+	} else {
+		body = append(body, 0)
+	}
 	return vSessFrame(1, body)
+}
+
+// vSessBigUpdate is a legal UPDATE of the maximum message size (4096 octets): 814 withdrawn /32
+// prefixes and one /16, no attributes, no NLRI.
+func vSessBigUpdate() []byte {
+	wd := make([]byte, 0, 4073)
+	for i := 0; i < 814; i++ {
+		wd = append(wd, 32, 198, 51, byte(i>>8), byte(i))
+	}
+	wd = append(wd, 16, 198, 18)
+	body := []byte{byte(len(wd) >> 8), byte(len(wd))}
+	body = append(body, wd...)
+	body = append(body, 0, 0)
+	return vSessFrame(2, body)
 }
 
 func vSessFrame(typ byte, body []byte) []byte {
@@ -483,13 +537,25 @@ func (p *vSessPeer) serve(k int, c net.Conn) {
 	if wrong {
 		asn = p.asn + 1
 	}
+	p.mu.Lock()
+	opn := p.planOpen()
+	p.opened[k] = opn
+	p.mu.Unlock()
 	// the line is logged before the octets leave: everything the session does in reaction comes later
-	p.log.add("sentopen", map[string]interface{}{"c": k, "wrong": wrong})
-	if _, err := c.Write(vSessOpenMsg(asn, p.hold)); err != nil {
+	p.log.add("sentopen", map[string]interface{}{"c": k, "wrong": wrong, "cap65": opn.cap65, "mp4": opn.mp4, "mp6": opn.mp6,
+		"hold": int(opn.hold), "pipe": opn.pipe && !wrong})
+	first := vSessOpenMsg(asn, opn)
+	if opn.pipe && !wrong {
+		// pipelining: OPEN, KEEPALIVE, a maximum-size UPDATE and another KEEPALIVE leave in ONE write
+		first = append(first, vSessFrame(4, nil)...)
+		first = append(first, vSessBigUpdate()...)
+		first = append(first, vSessFrame(4, nil)...)
+	}
+	if _, err := c.Write(first); err != nil {
 		p.logEOF(k, err)
 		return
 	}
-	if !wrong {
+	if !wrong && !opn.pipe {
 		if _, err := c.Write(vSessFrame(4, nil)); err != nil {
 			p.logEOF(k, err)
 			return
@@ -530,7 +596,7 @@ func (p *vSessPeer) logMsg(k int, typ byte, body []byte) int {
 	case 4:
 		recs = append(recs, map[string]interface{}{"t": "ka"})
 	case 2:
-		wd, anns, ok := vSessDecodeUpdate(body)
+		wd, anns, attrs, ok := vSessDecodeUpdate(body)
 		if !ok {
 			recs = append(recs, map[string]interface{}{"t": "other", "type": 2})
 			break
@@ -543,7 +609,13 @@ func (p *vSessPeer) logMsg(k int, typ byte, body []byte) int {
 			recs = append(recs, map[string]interface{}{"t": "wdr", "rs": rs})
 		}
 		for _, a := range anns {
-			recs = append(recs, map[string]interface{}{"t": "upd", "r": p.u.routeName(a.pfx), "a": p.u.attrName(a.lp, a.comms)})
+			p.mu.Lock()
+			opn := p.opened[k]
+			p.mu.Unlock()
+			// the raw path attributes go into the log together with what THIS connection's OPEN of the
+			// peer announced: whether AS_PATH has the width that capability implies is decided by TLC
+			recs = append(recs, map[string]interface{}{"t": "upd", "r": p.u.routeName(a.pfx), "a": p.u.attrName(a.lp, a.comms),
+				"attrs": vSessInts(attrs), "cap65": opn.cap65, "ibgp": p.u.ibgp, "myasn": int(p.myASN)})
 		}
 		if len(wd) == 0 && len(anns) == 0 {
 			recs = append(recs, map[string]interface{}{"t": "other", "type": 2})
@@ -562,6 +634,14 @@ func (p *vSessPeer) logMsg(k int, typ byte, body []byte) int {
 		p.log.updRecv[k]++
 	}
 	return p.log.updRecv[k]
+}
+
+func vSessInts(b []byte) []int {
+	out := make([]int, len(b))
+	for i, x := range b {
+		out[i] = int(x)
+	}
+	return out
 }
 
 type vSessAnn struct {
@@ -588,39 +668,40 @@ func vSessReadPrefixes(b []byte) ([]string, bool) {
 
 // vSessDecodeUpdate is the peer's minimal RFC 4271 UPDATE reader: withdrawn prefixes, and the
 // NLRI prefixes with the LOCAL_PREF (-1 if absent) and COMMUNITIES found among the attributes.
-func vSessDecodeUpdate(body []byte) (wd []string, anns []vSessAnn, ok bool) {
+func vSessDecodeUpdate(body []byte) (wd []string, anns []vSessAnn, rawAttrs []byte, ok bool) {
 	if len(body) < 4 {
-		return nil, nil, false
+		return nil, nil, nil, false
 	}
 	wl := int(binary.BigEndian.Uint16(body[0:2]))
 	if len(body) < 2+wl+2 {
-		return nil, nil, false
+		return nil, nil, nil, false
 	}
 	wd, ok = vSessReadPrefixes(body[2 : 2+wl])
 	if !ok {
-		return nil, nil, false
+		return nil, nil, nil, false
 	}
 	al := int(binary.BigEndian.Uint16(body[2+wl : 4+wl]))
 	if len(body) < 4+wl+al {
-		return nil, nil, false
+		return nil, nil, nil, false
 	}
 	attrs := body[4+wl : 4+wl+al]
+	rawAttrs = append([]byte(nil), attrs...)
 	lp := int64(-1)
 	var comms []uint32
 	for len(attrs) > 0 {
 		if len(attrs) < 3 {
-			return nil, nil, false
+			return nil, nil, nil, false
 		}
 		flags, code := attrs[0], attrs[1]
 		ln, off := int(attrs[2]), 3
 		if flags&0x10 != 0 {
 			if len(attrs) < 4 {
-				return nil, nil, false
+				return nil, nil, nil, false
 			}
 			ln, off = int(binary.BigEndian.Uint16(attrs[2:4])), 4
 		}
 		if len(attrs) < off+ln {
-			return nil, nil, false
+			return nil, nil, nil, false
 		}
 		v := attrs[off : off+ln]
 		switch code {
@@ -637,10 +718,10 @@ func vSessDecodeUpdate(body []byte) (wd []string, anns []vSessAnn, ok bool) {
 	}
 	nlri, ok := vSessReadPrefixes(body[4+wl+al:])
 	if !ok {
-		return nil, nil, false
+		return nil, nil, nil, false
 	}
 	for _, pfx := range nlri {
 		anns = append(anns, vSessAnn{pfx: pfx, lp: lp, comms: comms})
 	}
-	return wd, anns, true
+	return wd, anns, rawAttrs, true
 }
